@@ -15,6 +15,12 @@ package main
 //        caFile   - A AB missing empty bad        ca    - A B AB ws bad mixed
 //        flag     0 | 1      (ClientConfig.InsecureSkipVerify / ServerConfig.RequireClientCert)
 //     => ok certs=<n> root=<ids|-> cca=<ids|-> isv=<0|1> auth=<n> name=<hex> hooks=<-|list> | err <class> | PANIC
+//        monitor (besides the flags): both pools hold EXACTLY the configured CA certificates - by subject and by
+//        what they verify (leaves issued by CA A, CA B and the system CA S are verified against each pool)
+//   cfg2 <kind1> <ca1> <kind2> <ca2>        ca: - A B AB
+//        TWO configuration objects in one process: object 1 is loaded, then object 2, then object 1 again
+//     => pools root=<ids|-> cca=<ids|-> | pools … | pools …     (err <class> in place of a description)
+//        monitor: every pool holds exactly the CA certificates of ITS OWN object
 //   startname <hex host> <hex expected host name | ->
 //     => name <hex ServerName the client config carried into the handshake>
 //   udp <client|server> <hex password | - (no userinfo) | e (empty password)>
@@ -22,8 +28,10 @@ package main
 
 import (
 	"crypto/tls"
+	"crypto/x509"
 	"crypto/x509/pkix"
 	"encoding/asn1"
+	"encoding/pem"
 	"errors"
 	"fmt"
 	"net"
@@ -202,6 +210,140 @@ func c05describe(conf *tls.Config) string {
 	}
 	return fmt.Sprintf("ok certs=%d root=%s cca=%s isv=%d auth=%d name=%s hooks=%s", len(conf.Certificates), root, cca, isv,
 		int(conf.ClientAuth), hexs([]byte(conf.ServerName)), c05hooks(conf))
+}
+
+// ---- trust anchors: the pools handed to crypto/tls hold exactly the configured CA certificates ----
+
+// c05ConfiguredCAs: the CA certificates the CA options of a `cfg` op denote (file wins over inline); nil = none configured
+func c05ConfiguredCAs(caFile, ca string) []string {
+	switch caFile {
+	case "A":
+		return []string{"A"}
+	case "AB":
+		return []string{"A", "B"}
+	case "-":
+	default:
+		return nil // unreadable / empty / garbage: the configuration does not load
+	}
+	switch ca {
+	case "A", "mixed":
+		return []string{"A"}
+	case "B":
+		return []string{"B"}
+	case "AB":
+		return []string{"A", "B"}
+	}
+	return nil
+}
+
+var c05probeLeaves map[string]*x509.Certificate // signer -> a valid leaf issued by it
+
+func c05probes() map[string]*x509.Certificate {
+	if c05probeLeaves == nil {
+		p := getC05PKI()
+		m := map[string]*x509.Certificate{}
+		for signer, leaf := range map[string]c05Leaf{"A": p.server["good"], "B": p.server["untrusted"], "S": p.server["sys"]} {
+			blk, _ := pem.Decode([]byte(leaf.certPEM))
+			c, err := x509.ParseCertificate(blk.Bytes)
+			if err != nil {
+				panic(err)
+			}
+			m[signer] = c
+		}
+		c05probeLeaves = m
+	}
+	return c05probeLeaves
+}
+
+// c05poolMonitor: the property's reading of "the configured CA": pool `which` of a loaded configuration must list
+// exactly the configured CA certificates (nil when none is configured - crypto/tls then uses the system store),
+// and must verify a leaf iff its issuer is one of them.
+func c05poolMonitor(which string, pool *x509.CertPool, configured []string) string {
+	exp := "-"
+	if len(configured) > 0 {
+		exp = strings.Join(configured, ",")
+	}
+	got := "-"
+	if pool != nil {
+		//lint:ignore SA1019 see c05describe
+		got = c05poolIDs(pool.Subjects(), true)
+	}
+	if got != exp {
+		return fmt.Sprintf("%s handed to crypto/tls holds the trust anchors [%s], the configured CA option denotes [%s]", which, got, exp)
+	}
+	if pool == nil {
+		return ""
+	}
+	for _, signer := range []string{"A", "B", "S"} {
+		_, err := c05probes()[signer].Verify(x509.VerifyOptions{Roots: pool, KeyUsages: []x509.ExtKeyUsage{x509.ExtKeyUsageAny}})
+		if (err == nil) != c05in(configured, signer) {
+			return fmt.Sprintf("%s handed to crypto/tls verifies a certificate issued by CA %s: %v, the configured CA option denotes [%s]", which, signer, err == nil, exp)
+		}
+	}
+	return ""
+}
+
+func c05poolsMonitor(conf *tls.Config, configured []string) string {
+	if m := c05poolMonitor("RootCAs", conf.RootCAs, configured); m != "" {
+		return m
+	}
+	return c05poolMonitor("ClientCAs", conf.ClientCAs, configured)
+}
+
+var c05Cfg2Cas = []string{"-", "A", "B", "AB"}
+
+func (tlscfgComp) execCfg2(t []string) (string, string, string, bool) {
+	if len(t) != 4 || !c05in(c05Kinds, t[0]) || !c05in(c05Cfg2Cas, t[1]) || !c05in(c05Kinds, t[2]) || !c05in(c05Cfg2Cas, t[3]) {
+		return "bad-op", "", "bad-op", false
+	}
+	p := getC05PKI()
+	mk := func(kind, ca string) (cert.TlsConfig, []string) {
+		base := cert.Config{Certificate: p.server["good"].certPEM, PrivateKey: p.server["good"].keyPEM}
+		var conf []string
+		switch ca {
+		case "A", "B":
+			base.CaCertificate = p.caPEM[ca]
+			conf = []string{ca}
+		case "AB":
+			base.CaCertificate = p.caPEM["A"] + p.caPEM["B"]
+			conf = []string{"A", "B"}
+		}
+		switch kind {
+		case "client":
+			return &cert.ClientConfig{Config: base}, conf
+		case "server":
+			return &cert.ServerConfig{Config: base, RequireClientCert: true}, conf
+		}
+		return &base, conf
+	}
+	o1, c1 := mk(t[0], t[1])
+	o2, c2 := mk(t[2], t[3])
+	var parts []string
+	mon := ""
+	for i, step := range []struct {
+		o    cert.TlsConfig
+		conf []string
+	}{{o1, c1}, {o2, c2}, {o1, c1}} {
+		conf, err := step.o.GetTlsConfig()
+		if err != nil || conf == nil {
+			parts = append(parts, "err "+c05errClass(err))
+			continue
+		}
+		root, cca := "-", "-"
+		if conf.RootCAs != nil {
+			//lint:ignore SA1019 see c05describe
+			root = c05poolIDs(conf.RootCAs.Subjects(), true)
+		}
+		if conf.ClientCAs != nil {
+			//lint:ignore SA1019 see c05describe
+			cca = c05poolIDs(conf.ClientCAs.Subjects(), true)
+		}
+		parts = append(parts, "pools root="+root+" cca="+cca)
+		if m := c05poolsMonitor(conf, step.conf); m != "" && mon == "" {
+			mon = fmt.Sprintf("load %d (object %d of two configuration objects): %s", i+1, []int{1, 2, 1}[i], m)
+		}
+	}
+	return strings.Join(parts, " | "), mon, "cfg2:" + t[0] + ":" + t[2], true
 }
 
 // c05hooks lists the remaining knobs of a tls.Config that alter what certificate verification
@@ -453,6 +595,8 @@ func (c tlscfgComp) Exec(op string) (string, string, string, bool) {
 		return c.execStartCfg(t[1:])
 	case "udp":
 		return c.execUdp(t[1:])
+	case "cfg2":
+		return c.execCfg2(t[1:])
 	case "cfg":
 	default:
 		return "bad-op", "", "bad-op", false
@@ -508,6 +652,9 @@ func (c tlscfgComp) Exec(op string) (string, string, string, bool) {
 			if !flag && conf.ClientAuth != tls.NoClientCert {
 				mon = "ClientAuth set without RequireClientCert"
 			}
+		}
+		if mon == "" {
+			mon = c05poolsMonitor(conf, c05ConfiguredCAs(t[7], t[8]))
 		}
 		class += fmt.Sprintf(":ok-certs%d-ca%v-flag%v", len(conf.Certificates), conf.RootCAs != nil, flag)
 	}
@@ -596,6 +743,16 @@ func (tlscfgComp) Gen(r *Rand, tier string, emit func(string)) {
 			}
 		}
 		emit(line(r.Pick(c05Kinds), f, r.Intn(2)))
+	}
+	// 3b. two configuration objects with every pair of CA options, every pair of kinds
+	for _, k1 := range c05Kinds {
+		for _, k2 := range c05Kinds {
+			for _, ca1 := range c05Cfg2Cas {
+				for _, ca2 := range c05Cfg2Cas {
+					emit(fmt.Sprintf("cfg2 %s %s %s %s", k1, ca1, k2, ca2))
+				}
+			}
+		}
 	}
 	// 4. StartTLS server names: the host strings upstreams pass (Address.Host) and irregular ones
 	hp := [][2]string{
